@@ -8,7 +8,7 @@ transaction that contained an eager cache mutation, and after one committed tran
 (nextAddresses followed by extendAddresses on the same branch). Each is a proved counter-example below and a
 Go-side oracle key.
 -/
-import BtcwVerif.Lemmas.AddrLock
+import BtcwVerif.Lemmas.AddrGoodStep
 namespace AddrLock
 
 /-- answer of query `q` on the running manager / on a manager freshly opened on the same database -/
@@ -23,6 +23,43 @@ theorem C08_disk_queries_eq_reopen (d : Disk) (m : Mem) (q : Query)
     (hq : (∃ sc n, q = .lookup sc n) ∨ (∃ sc a, q = .acctName sc a) ∨ (∃ h, q = .blockHash h)) :
     (query d m q).2 = (query d (openMem d) q).2 := by
   rcases hq with ⟨sc, n, rfl⟩ | ⟨sc, a, rfl⟩ | ⟨h, rfl⟩ <;> simp only [query] <;> split <;> rfl
+
+/-! ## 1b. coherent caches answer EVERY query of the property exactly as a freshly opened manager -/
+
+/-- `Coherent d m` (Lemmas/AddrCoherent.lean): every cached account info agrees with its account row (name, next
+indices, last addresses), every cached address is what the database would load for that key, the sync state equals
+the stored one, and the manager never needs a private key the database lacks.  Then Address, AccountProperties,
+Last{External,Internal}Address, LookupAccount, AccountName, Used, SyncedTo and BlockHash all answer as on a manager
+freshly opened on the same database (whose answers are the database-only function `qAns`). -/
+theorem C08_query_eq_of_coherent (d : Disk) (m : Mem) (h : Coherent d m) (q : Query) :
+    (query d m q).2 = (query d (openMem d) q).2 := by
+  rw [query_ans h q, query_ans (coherent_open d) q]
+
+/-- non-vacuity / the restart itself: a freshly opened manager is coherent -/
+theorem C08_reopen_coherent (d : Disk) : Coherent d (openMem d) := coherent_open d
+
+/-! ## 1c. the invariant holds after every history of operations that each run in their own transaction -/
+
+/-- **C08, first sentence.** For EVERY history of operations each executed in its own database transaction
+(`walletdb.Update`: committed when the operation returns nil, rolled back when it returns an error) — unlock/lock
+with right and wrong passphrases, passphrase changes, conversion to watching-only, account creation and renaming,
+NextAddresses (including its OnCommit closure), ExtendAddresses, imports, MarkUsed, SetSyncedTo, lookups,
+restarts — and for every code variant `cfg`: the running manager answers every query of the property exactly as
+a manager freshly opened on the same database.
+
+`_partial`: explicit multi-operation brackets and transactions rolled back AFTER their operations succeeded
+(dry runs, failed commits) are excluded — those are exactly where the equivalence is false on the current tree
+(counter-examples in section 3). -/
+theorem C08_mem_eq_reopen_partial (cfg : Cfg) (ops : List Op) (hops : ∀ op ∈ ops, op.single = true)
+    (m : Mem) (hm : (run { cfg := cfg } ops).mem = some m) (q : Query) :
+    (query (run { cfg := cfg } ops).disk m q).2 =
+    (query (run { cfg := cfg } ops).disk (openMem (run { cfg := cfg } ops).disk) q).2 := by
+  obtain ⟨_, _, _, h4⟩ := stGood_run { cfg := cfg } ops (stGood_init cfg) hops
+  exact C08_query_eq_of_coherent _ m (h4 m hm).coh q
+
+/-- the invariant behind it, for use at any transaction boundary -/
+theorem C08_coherent_invariant (s : State) (ops : List Op) (h : StGood s) (hops : ∀ op ∈ ops, op.single = true) :
+    StGood (run s ops) := stGood_run s ops h hops
 
 /-! ## 2. a rolled-back (or failed-commit) transaction leaves the database exactly as it was -/
 
@@ -70,13 +107,61 @@ theorem C08_rollback_restores_disk (s : State) (ops : List Op) (h : s.snap = non
   simp only [run, step]
   simp [hs, rollbackTx]
 
-/-! ## 3. what does NOT hold on the current tree (model = code, replayed by the Go engine) -/
-
 /-- the addresses a freshly opened manager would issue for the request -/
 def freshNext (s : State) (sc acct n : Nat) (int : Bool) : Option (List AKey) :=
   match (nextAddresses s.disk (openMem s.disk) sc acct n int).res with
   | .ok l => some l
   | .error _ => none
+
+/-! ## 2b. a rolled-back NextAddresses (the dry-run shape) does not advance the index, and the next committed request
+issues the very address a restarted wallet would issue -/
+
+/-- state after `begin; NextAddresses; rollback` from a boundary state with an open manager -/
+theorem run_next_rollback (s : State) (m : Mem) (h1 : s.snap = none) (hm : s.mem = some m) (sc a n : Nat) (int : Bool) :
+    run s [.begin, .next sc a n int, .rollback] =
+      { s with disk := s.disk, snap := none, pend := [], mem := some (nextAddresses s.disk m sc a n int).mem } := by
+  simp only [run, step, h1, hm, Option.isSome, Option.isNone, exec]
+  cases hr : (nextAddresses s.disk m sc a n int).res <;> simp [hr, rollbackTx]
+
+/-- **C08, second sentence (1).** After a rolled-back NextAddresses the database is as before and the account cache
+(name, next indices, last addresses) of the running manager agrees with it: AccountProperties and
+Last{External,Internal}Address answer as on a restarted manager — the index did not advance. -/
+theorem C08_rollback_keeps_index (s : State) (h : StGood s) (m : Mem) (hm : s.mem = some m) (sc a n : Nat) (int : Bool) :
+    let s' := run s [.begin, .next sc a n int, .rollback]
+    s'.disk = s.disk ∧ s'.snap = none ∧
+    ∃ m', s'.mem = some m' ∧ AcctCoh s'.disk m' ∧
+      (∀ sc' a', (query s'.disk m' (.props sc' a')).2 = (query s'.disk (openMem s'.disk) (.props sc' a')).2) ∧
+      (∀ sc' a' i, (query s'.disk m' (.lastAddr sc' a' i)).2 = (query s'.disk (openMem s'.disk) (.lastAddr sc' a' i)).2) := by
+  obtain ⟨h1, _, _, h4⟩ := h
+  rw [run_next_rollback s m h1 hm]
+  have hc := next_rollback_acct (h4 m hm) sc a n int
+  have ho := coherent_open s.disk
+  refine ⟨rfl, rfl, _, rfl, hc, ?_, ?_⟩
+  · intro sc' a'
+    exact (query_props_ans hc.1 hc.2 sc' a').trans (query_props_ans ho.acct ho.priv sc' a').symm
+  · intro sc' a' i
+    exact (query_last_ans hc.1 hc.2 sc' a' i).trans (query_last_ans ho.acct ho.priv sc' a' i).symm
+
+/-- **C08, second sentence (2).** … and whatever the next committed NextAddresses request issues is exactly what a
+manager restarted on that database would issue. -/
+theorem C08_next_after_rollback (s : State) (h : StGood s) (m : Mem) (hm : s.mem = some m) (sc a n : Nat) (int : Bool)
+    (sc' a' n' : Nat) (int' : Bool) (l : List AKey) :
+    let s' := run s [.begin, .next sc a n int, .rollback]
+    (step s' (.next sc' a' n' int')).2 = .keys l → freshNext s' sc' a' n' int' = some l := by
+  obtain ⟨h1, _, _, h4⟩ := h
+  rw [run_next_rollback s m h1 hm]
+  have hc := next_rollback_acct (h4 m hm) sc a n int
+  dsimp only
+  intro hres
+  have hok : (nextAddresses s.disk (nextAddresses s.disk m sc a n int).mem sc' a' n' int').res = .ok l := by
+    simp only [step, Option.isSome, Op.writes, exec] at hres
+    cases hr : (nextAddresses s.disk (nextAddresses s.disk m sc a n int).mem sc' a' n' int').res with
+    | error e => simp [hr, isErr] at hres
+    | ok l' => simp [hr, isErr] at hres; rw [hres]
+  have := next_same_as_fresh hc sc' a' n' int' l hok
+  simp only [freshNext, this]
+
+/-! ## 3. what does NOT hold on the current tree (model = code, replayed by the Go engine) -/
 
 /-- did the running manager and a restarted one answer `q` the same? -/
 def agrees (s : State) (q : Query) : Bool := ansRun s q == some (ansFresh s q)
